@@ -196,6 +196,10 @@ class Interp:
             return v != 0
         if isinstance(v, Op):
             return self.ch.choose(2) == 0
+        if isinstance(v, Ptr):
+            return v.rec is not None
+        if isinstance(v, It):
+            return True
         if v is None:
             self.broken(fn, e, 'condition without a value')
         self.broken(fn, e, 'condition on a %s' % type(v).__name__)
@@ -219,6 +223,12 @@ class Interp:
             self.fresh(a, fn, e, 'comparison')
             self.fresh(b, fn, e, 'comparison')
             x, y = a.idx, b.idx
+        elif isinstance(a, Ptr) and isinstance(b, Ptr) and op in ('==', '!='):
+            return (a.rec is b.rec) == (op == '==')
+        elif isinstance(a, Ptr) and isinstance(b, int) and b == 0 and op in ('==', '!='):
+            return (a.rec is None) == (op == '==')
+        elif isinstance(b, Ptr) and isinstance(a, int) and a == 0 and op in ('==', '!='):
+            return (b.rec is None) == (op == '==')
         elif isinstance(a, Op) or isinstance(b, Op):
             return self.opaque_compare(op, a, b, fn, e)
         elif isinstance(a, W) and isinstance(b, (int, float)) or isinstance(b, W) and isinstance(a, (int, float)):
@@ -375,6 +385,9 @@ class Interp:
                 return n['v']
             return None
 
+        if k in ('CXXNullPtrLiteralExpr', 'GNUNullExpr'):
+            val[i] = Ptr(None)
+            return
         if k in ('IntegerLiteral', 'CXXBoolLiteralExpr', 'CharacterLiteral'):
             val[i] = e.get('v') if k != 'CXXBoolLiteralExpr' else bool(e.get('v'))
             return
@@ -424,7 +437,9 @@ class Interp:
                     self.broken(fn, e, 'a coordinate is converted to an integer')
                 val[i] = s if isinstance(s, (int, float)) else Op()
             elif ck == 'PointerToBoolean':
-                val[i] = True
+                val[i] = (s.rec is not None) if isinstance(s, Ptr) else True
+            elif ck == 'NullToPointer':
+                val[i] = Ptr(None)
             else:
                 val[i] = s
             return
@@ -438,6 +453,8 @@ class Interp:
                 if isinstance(p, It):
                     rec = self.deref_it(p, fn, e).load()
                 elif isinstance(p, Ptr):
+                    if p.rec is None:
+                        raise Violation('a null pointer is dereferenced (%s)' % fn.render(e), fn.loc(e))
                     rec = p.rec
                 else:
                     self.broken(fn, e, '-> on a %s' % type(p).__name__)
@@ -645,6 +662,8 @@ class Interp:
             if isinstance(ov, It) and not self.is_vec_method(fq):
                 ov = self.deref_it(ov, fn, e).load()
             elif isinstance(ov, Ptr):
+                if ov.rec is None:
+                    raise Violation('a member function is called through a null pointer (%s)' % fq, fn.loc(e))
                 ov = ov.rec
             obj = ov
         elif e['k'] == 'CXXOperatorCallExpr' and e.get('mcall') is None and args and self.lookup(fn, e) and self.fx.raw['functions'][self.lookup(fn, e)].get('cls'):
